@@ -317,7 +317,7 @@ func init() {
 var profC16 = Profile{
 	MaxProcs: 6, MaxItems: 3, Bufsizes: []int{0, 1, 2}, MaxSlots: 4,
 	Params: true, MultiOut: true, FanIn: true, FanOut: true, NoPort: true, ParamSrc: true,
-	Subdirs: true, TwoSources: true, Zip: true,
+	Subdirs: true, TwoSources: true, Zip: true, Sinkless: true,
 }
 
 func init() {
